@@ -18,16 +18,17 @@
  *     f<i>.<k>.<e>  fault armed for the next G / H only: k = 0 open of file i fails with errno e, k >= 1 the k-th read()
  *                   of file i fails with errno e (e.g. 21 EISDIR = a directory of that name, 13 EACCES, 5 EIO, 40 ELOOP)
  *     H             SIGHUP: reread() (chdir home, regetcontrols(), chdir queue)
- *     r=<hex>       one envelope recipient: rewrite(), and for a local-channel result stripvdomprepend() of the rewritten
+ *     r=<c>         one envelope recipient (content syntax as above, NULs dropped): rewrite(), and for a local-channel result stripvdomprepend() of the rewritten
  *                   address (what addbounce() does)
  *   results  ','-separated, one per G / H / r event: g<rc>, h<1 reread took effect | 0 "alert: unable to reread" logged>,
- *            <ret>.<rwline-hex>.<stripped-hex | ->   ("n" = no configuration in force: the daemon would have exited)
+ *            <ret>.<length of rwline>.<FNV-1a of rwline>.<offset stripvdomprepend returned | ->
+ *            ("n" = no configuration in force: the daemon would have exited)
  *   shadow   "ok" or "e<epoch>.p<probe>": inv = 1 iff every recipient routed during the history gets the same answer from
  *            a FRESH process started on the configuration that was in force at that point (files of the last start-up,
  *            locals / virtualdomains of the last re-read that took effect).  A table that still points into a scratch
  *            buffer that a later (possibly failing) re-read has overwritten in place is caught here even when no
  *            reallocation happened; when it was reallocated ASan reports the use after free (X line).
- * Recipients and file contents live in malloc blocks of exactly their size. */
+ * Recipients are handed over in malloc blocks of exactly their size; the control files are real files in <workdir>/ctl<pid>. */
 #include "c20_death.h"
 #include <fcntl.h>
 #include <errno.h>
@@ -266,7 +267,7 @@ static void evhex(const char *s, size_t n) {
   int first = 1, open = 0; char t[32];
   for (size_t i = 0; i < n;) {
     size_t j = i; while (j < n && s[j] == s[i]) j++;
-    if (j - i >= 16) { if (!first) evs("+"); hexadd(&ev, (const unsigned char *)s + i, 1); evs(t + 0 * snprintf(t, sizeof t, "x%zu", j - i)); first = 0; open = 0; }
+    if (j - i >= 16) { if (!first) evs("+"); hexadd(&ev, (const unsigned char *)s + i, 1); snprintf(t, sizeof t, "x%zu", j - i); evs(t); first = 0; open = 0; }
     else { if (!open && !first) evs("+"); open = 1; first = 0; hexadd(&ev, (const unsigned char *)s + i, j - i); }
     i = j;
   }
